@@ -365,7 +365,20 @@ def step (st : St) (line : String) : St × String :=
              psks := psks, prologue := (optBytes (kv parts "pro")).getD [], rng := unhex (kv parts "rng") }
          match build S av cfg with
          | .ok hs => (st.put sid (.hs S hs), "ok")
-         | .err x => (st, s!"err {x.toStr}")
+         | .err x =>
+           -- C12 asks for "a descriptive error at build time", not for a particular one when several
+           -- things are wrong at once: after the error the code reports (first), every other error
+           -- whose own condition holds for this configuration is listed as an acceptable alternative
+           let alts : List String :=
+             (if cfg.s.isNone && needsLocalStatic cfg.pattern cfg.initiator then ["Prereq(LocalPrivateKey)"] else []) ++
+             (if cfg.rs.isNone && needKnownRemote cfg.pattern cfg.initiator then ["Prereq(RemotePublicKey)"] else []) ++
+             (if !av.rng then ["Init(GetRngImpl)"] else []) ++ (if !av.cipher then ["Init(GetCipherImpl)"] else []) ++
+             (if !av.hash then ["Init(GetHashImpl)"] else []) ++ (if !av.dh then ["Init(GetDhImpl)"] else []) ++
+             (match handshakeTokens cfg.pattern cfg.mods with
+              | .err y => [y.toStr]
+              | _ => [])
+           let others := (alts.filter (· != x.toStr)).eraseDups
+           (st, "err " ++ String.intercalate "|" (x.toStr :: others))
          | .panic _ => (st, "panic"))
   | "hs_write" =>
     (match st.get (nat 1) with
